@@ -579,5 +579,34 @@ pub fn main(args: &[String]) {
         metamorphic(m, &mut orng, &mut rep);
         impl_placement(m, &mut rep);
     }
+    exports_oracle(&mods, if thorough { 200 } else { 24 }, &mut rep);
     rep.print();
+}
+
+/// "… and the Rust library still exports the function": whatever the conditions say, the real proc macro emits one
+/// `extern "C"` function per method of the bridge (the AST's ABI names, which know nothing of backends).
+fn exports_oracle(mods: &[Module], k: usize, rep: &mut Report) {
+    let probe = "#[diplomat::bridge]\nmod ffi {\n    #[diplomat::opaque]\n    pub struct Counter(pub u8);\n    impl Counter {\n        pub fn plain(&self) -> u8 { 1 }\n        #[diplomat::attr(*, disable)]\n        pub fn star(&self) -> u8 { 2 }\n        #[diplomat::attr(any(c, cpp, js, dart, kotlin, nanobind, demo_gen), disable)]\n        pub fn every(&self) -> u8 { 3 }\n        #[diplomat::attr(not(cpp), disable)]\n        pub fn only_cpp(&self) -> u8 { 4 }\n    }\n    #[diplomat::attr(*, disable)]\n    impl Counter {\n        pub fn inherited_star(&self) -> u8 { 5 }\n    }\n    #[diplomat::attr(*, disable)]\n    pub struct Gone { pub a: u8 }\n    impl Gone { pub fn of(a: u8) -> Gone { Gone { a } } }\n}\n".to_string();
+    let mut srcs = vec![probe];
+    srcs.extend(mods.iter().take(k).map(|m| m.rust()));
+    let ex = crate::expand::expand_each(&srcs);
+    for (i, (src, e)) in srcs.iter().zip(&ex).enumerate() {
+        let case = if i == 0 { "(c13 probe exports-under-star-disable)".to_string() } else { format!("{} exports", mods[i - 1].sexp()) };
+        rep.oracle_runs += 1;
+        match e {
+            Err(e) => {
+                rep.count("exports:expansion-failed");
+                if i == 0 { rep.oracle_fail(&case, "the proc-macro expansion of the export probe does not build", json!({"rustc": e})); }
+            }
+            Ok(x) => {
+                rep.count("exports:checked");
+                let exported: Vec<&str> = x.extern_fns.iter().map(|f| f.name.as_str()).collect();
+                for want in abi_names(src) {
+                    if !exported.contains(&want.as_str()) {
+                        rep.oracle_fail(&case, "a method under a backend-conditional attribute is not exported by the Rust library", json!({"symbol": want, "exported": exported, "source": src}));
+                    }
+                }
+            }
+        }
+    }
 }
